@@ -64,6 +64,8 @@ static void assign(pmap * m, token * t, int depth) {
 	}
 }
 
+/* TLC's integers have 32 bits (and its JSON reader wraps silently): an offset or length beyond 10^9 is reported as 10^9 -- far outside any source either way */
+#define CLAMP31(v) ((size_t)((v) > (size_t)1000000000 ? (size_t)1000000000 : (v)))
 static void dump_tree(const char * when, token * root, size_t srclen, long base, long span) {
 	pmap m; pm_init(&m, 4096); norder = 0; shared = 0;
 	if (root) { pm_put(&m, root, 1); order = realloc(order, (caporder = caporder ? caporder : 1024) * sizeof(token *)); order[norder++] = root; if (root->child) assign(&m, root->child, 1); }
@@ -74,7 +76,7 @@ static void dump_tree(const char * when, token * root, size_t srclen, long base,
 	b[o++] = '[';
 	for (size_t i = 0; i < norder; i++) {
 		token * t = order[i];
-		o += (size_t)snprintf(b + o, need - o, "%s[%u,%zu,%zu,%d,%d,%d,%d]", i ? "," : "", t->type, t->start, t->len,
+		o += (size_t)snprintf(b + o, need - o, "%s[%u,%zu,%zu,%d,%d,%d,%d]", i ? "," : "", t->type, CLAMP31(t->start), CLAMP31(t->len),
 		                      (i == 0) ? 0 : pm_get(&m, t->next), (i == 0) ? 0 : pm_get(&m, t->prev), pm_get(&m, t->child), pm_get(&m, t->mate));
 	}
 	b[o++] = ']'; b[o] = 0;
